@@ -515,7 +515,9 @@ Inductive hop :=
 | HMap (k : mapkey) (adds : list (Z * Z * option Z))    (* clear(); add_variable(...) ... *)
 | HSave (k : mapkey) (fail : Z)                         (* save(), k-th download aborted (0 = none) *)
 | HRead (k : mapkey) (fi fs : Z)                        (* read(), uploads of (fi, fs) aborted ((0,0) = none) *)
-| HReset (node : Z) (r : regs).                         (* the device comes back with these registers *)
+| HReset (node : Z) (r : regs)                          (* the device comes back with these registers *)
+| HMove (node : Z) (net : Z)                            (* del cur_net[id]; nets[net].add_node(node) *)
+| HUnsub (k : mapkey).                                  (* the application unsubscribes the map's callback from its COB-ID *)
 
 Fixpoint zinsert (x : Z) (l : list Z) : list Z :=
   match l with
@@ -527,20 +529,73 @@ Definition zsort (l : list Z) : list Z := fold_right zinsert [] l.
 Definition v_layout (p : pmap) : val :=
   VL [VZ (p_dlen p); VZ (p_len p); VL (map (vopt VZ) (p_offs p))].
 
-(* the subscription table of the whole network: per map the sorted CAN ids of its callback, then the
-   number of callbacks that are not PDO maps (per node: SDO response, heartbeat, EMCY, NMT command; once: LSS) *)
-Definition v_table (ms : list (mapkey * pmap)) (nnodes : Z) : val :=
-  VL (map (fun kp => VL (map VZ (zsort (p_subs (snd kp))))) ms ++ [VZ (4 * nnodes + 1)]).
+(* Several Network objects: p_subs of a map is its subscription list on the network its node is attached to NOW;
+   what it left behind on the other networks (remove_network does not touch PDO subscriptions) is kept in a stash
+   keyed by (map, network). *)
+Definition stash := list ((mapkey * Z) * list Z).
 
-Definition v_unit (r : res unit) : val := res_val (fun _ => VNone) r.
+Fixpoint stash_get (st : stash) (k : mapkey) (net : Z) : list Z :=
+  match st with
+  | [] => []
+  | ((k', n'), l) :: t => if key_eqb k k' && (net =? n') then l else stash_get t k net
+  end.
+
+Definition pm_with_subs (p : pmap) (subs : list Z) : pmap :=
+  mkPm (p_cfg p) (p_offs p) (p_len p) (p_dlen p) subs.
+
+Fixpoint zremove (x : Z) (l : list Z) : list Z :=
+  match l with
+  | [] => []
+  | y :: t => if x =? y then t else y :: zremove x t
+  end.
 
 Definition key_indices (k : mapkey) : Z * Z :=
   let '(_, tp, n) := k in (com_index tp n, map_index tp n).
 Definition key_node (k : mapkey) : nat := let '(nd, _, _) := k in Z.to_nat nd.
 
-Fixpoint run_history (od : oddesc) (d : device) (ms : list (mapkey * pmap)) (rs : list regs)
-                     (ops : list hop) : list val :=
-  let nn := Z.of_nat (length rs) in
+Fixpoint znth (l : list Z) (n : nat) : Z :=
+  match l, n with
+  | x :: _, O => x
+  | _ :: t, S m => znth t m
+  | [], _ => 0
+  end.
+Fixpoint zset_nth (l : list Z) (n : nat) (v : Z) : list Z :=
+  match l, n with
+  | _ :: t, O => v :: t
+  | x :: t, S m => x :: zset_nth t m v
+  | [], _ => []
+  end.
+
+Fixpoint zrange (n : nat) : list Z :=
+  match n with O => [] | S m => zrange m ++ [Z.of_nat m] end.
+
+(* the subscription tables of all networks: per map, per network, the sorted CAN ids of its callback; then per
+   network the number of callbacks that are not PDO maps (LSS once; per attached node: SDO response, heartbeat,
+   EMCY, NMT command) *)
+Definition v_table (ms : list (mapkey * pmap)) (cur : list Z) (st : stash) (nnets : nat) : val :=
+  VL (map (fun kp =>
+             VL (map (fun j => VL (map VZ (zsort (if j =? znth cur (key_node (fst kp)) then p_subs (snd kp)
+                                                  else stash_get st (fst kp) j))))
+                     (zrange nnets))) ms ++
+      [VL (map (fun j => VZ (1 + 4 * Z.of_nat (length (filter (fun c => c =? j) cur)))) (zrange nnets))]).
+
+Definition v_unit (r : res unit) : val := res_val (fun _ => VNone) r.
+
+(* node nd goes from network a to network b: every map of the node leaves its list on a and finds the one on b *)
+Fixpoint move_maps (ms : list (mapkey * pmap)) (st : stash) (nd : nat) (a b : Z) : list (mapkey * pmap) * stash :=
+  match ms with
+  | [] => ([], st)
+  | (k, p) :: t =>
+      if Nat.eqb (key_node k) nd then
+        let st1 := ((k, a), p_subs p) :: st in
+        let '(t', st2) := move_maps t st1 nd a b in
+        ((k, pm_with_subs p (stash_get st1 k b)) :: t', st2)
+      else
+        let '(t', st2) := move_maps t st nd a b in ((k, p) :: t', st2)
+  end.
+
+Fixpoint run_history (od : oddesc) (d : device) (nnets : nat) (ms : list (mapkey * pmap)) (cur : list Z) (st : stash)
+                     (rs : list regs) (ops : list hop) : list val :=
   match ops with
   | [] => []
   | op :: rest =>
@@ -548,17 +603,19 @@ Fixpoint run_history (od : oddesc) (d : device) (ms : list (mapkey * pmap)) (rs 
       | HSet k a =>
           let p := pm_set (maps_get ms k) a in
           let ms' := maps_set ms k p in
-          VL [VNone; VL []; v_cfg (p_cfg p) (p_subs p); v_layout p; v_table ms' nn] :: run_history od d ms' rs rest
+          VL [VNone; VL []; v_cfg (p_cfg p) (p_subs p); v_layout p; v_table ms' cur st nnets]
+            :: run_history od d nnets ms' cur st rs rest
       | HMap k adds =>
           let p := pm_adds (o_objs od) (pm_clear (maps_get ms k)) adds in
           let ms' := maps_set ms k p in
-          VL [VNone; VL []; v_cfg (p_cfg p) (p_subs p); v_layout p; v_table ms' nn] :: run_history od d ms' rs rest
+          VL [VNone; VL []; v_cfg (p_cfg p) (p_subs p); v_layout p; v_table ms' cur st nnets]
+            :: run_history od d nnets ms' cur st rs rest
       | HSave k fail =>
           let '(com, mp) := key_indices k in
           let '(p, r', lg, x) := pm_save od d fail com mp (maps_get ms k) (nregs_get rs (key_node k)) in
           let ms' := maps_set ms k p in
-          VL [v_unit x; v_log lg; v_cfg (p_cfg p) (p_subs p); v_layout p; v_table ms' nn]
-            :: run_history od d ms' (nregs_set rs (key_node k) r') rest
+          VL [v_unit x; v_log lg; v_cfg (p_cfg p) (p_subs p); v_layout p; v_table ms' cur st nnets]
+            :: run_history od d nnets ms' cur st (nregs_set rs (key_node k) r') rest
       | HRead k fi fs =>
           let '(com, mp) := key_indices k in
           let p0 := maps_get ms k in
@@ -572,10 +629,26 @@ Fixpoint run_history (od : oddesc) (d : device) (ms : list (mapkey * pmap)) (rs 
                        | _, _ => true
                        end in
           let ms' := maps_set ms k p in
-          VL [v_unit x; VBool agree; v_cfg (p_cfg p) (p_subs p); v_layout p; v_table ms' nn]
-            :: run_history od d ms' rs rest
+          VL [v_unit x; VBool agree; v_cfg (p_cfg p) (p_subs p); v_layout p; v_table ms' cur st nnets]
+            :: run_history od d nnets ms' cur st rs rest
       | HReset nd r =>
-          VL [VNone; VL []; VNone; VNone; v_table ms nn] :: run_history od d ms (nregs_set rs (Z.to_nat nd) r) rest
+          VL [VNone; VL []; VNone; VNone; v_table ms cur st nnets]
+            :: run_history od d nnets ms cur st (nregs_set rs (Z.to_nat nd) r) rest
+      | HMove nd b =>
+          let a := znth cur (Z.to_nat nd) in
+          let '(ms', st') := move_maps ms st (Z.to_nat nd) a b in
+          let cur' := zset_nth cur (Z.to_nat nd) b in
+          VL [VNone; VL []; VNone; VNone; v_table ms' cur' st' nnets]
+            :: run_history od d nnets ms' cur' st' rs rest
+      | HUnsub k =>
+          let p0 := maps_get ms k in
+          let p := match c_cob (p_cfg p0) with
+                   | Some cob => pm_with_subs p0 (zremove cob (p_subs p0))
+                   | None => p0
+                   end in
+          let ms' := maps_set ms k p in
+          VL [VNone; VL []; v_cfg (p_cfg p) (p_subs p); v_layout p; v_table ms' cur st nnets]
+            :: run_history od d nnets ms' cur st rs rest
       end
   end.
 
@@ -593,8 +666,8 @@ Inductive pdocfg_case :=
    maps (receive maps first), then pdo.save() of all maps; no other object carries a value *)
 | CLoad (n : Z) (od : oddesc) (vals : odvals) (d : device) (r0 : regs)
 (* a history of operations on the maps `keys` (all fresh at the start) of the node objects of one Network,
-   node i behind device d with registers rs[i] *)
-| CHistory (od : oddesc) (d : device) (keys : list mapkey) (rs : list regs) (ops : list hop).
+   node i behind device d with registers rs[i]; nnets Network objects, every node starts on network 0 *)
+| CHistory (od : oddesc) (d : device) (nnets : Z) (keys : list mapkey) (rs : list regs) (ops : list hop).
 
 Definition save_and_readback (od : oddesc) (d : device) (r0 : regs) (com mp : Z) (c : cfg) (subs : list Z) : val :=
   let '((r1, lg), sr) := save_io (log_write d) log_ul od com mp c subs (r0, []) in
@@ -649,5 +722,6 @@ Definition run_pdocfg (c : pdocfg_case) : val :=
   | CIndices tpdo n node_id =>
       VL [VZ (com_index tpdo n); VZ (map_index tpdo n); vopt VZ (predefined_cob tpdo n node_id)]
   | CLoad n od vals d r0 => load_configuration n od vals d r0
-  | CHistory od d keys rs ops => VL (run_history od d (map (fun k => (k, fresh_pmap)) keys) rs ops)
+  | CHistory od d nnets keys rs ops =>
+      VL (run_history od d (Z.to_nat nnets) (map (fun k => (k, fresh_pmap)) keys) (map (fun _ => 0) rs) [] rs ops)
   end.
